@@ -31,7 +31,8 @@ Allowed(c, k) == k = 0 \/ (H(c) + SeedN + k) % (IF Full THEN 3 ELSE 16) = 0 \/ c
 Observers(d) == <<C("list", "", "")>>
                 \o [i \in 1..2 |-> C("info", "", <<"@a", "default">>[i])]
                 \o <<C("resolve", "", "a"), C("resolve", "", "ä b"), C("resolvedefault", "", ""),
-                     C("info", "", "@b"), C("resolve", "", "A"), C("resolvemix", "", "a"), C("resolvemix2", "", "default")>>
+                     C("info", "", "@b"), C("resolve", "", "A"), C("resolvemix", "", "a"), C("resolvemix2", "", "default"),
+                     C("resolveblank", "", "a")>>
 
 Init == db = EmptyDb /\ hist = <<>>
 Next == /\ Len(hist) < Depth
